@@ -93,11 +93,11 @@ def splitNul : List Nat → Option (List Nat × List Nat)
     | some (d, t) => some (b :: d, t)
     | none => none
 
-/-- `HybridConversionInfo::from_bytes`: no delimiter → panic; invalid UTF-8 → error; a tail that is not
+/-- `HybridConversionInfo::from_bytes`: no delimiter → error; invalid UTF-8 → error; a tail that is not
 exactly 1 + 3·8 bytes → `Length` error. -/
 def convInfoDec (bs : List Nat) : Outcome ConvInfo :=
   match splitNul bs with
-  | none => .panic
+  | none => .err
   | some (d, tail) =>
     if !utf8Valid d then .err else
     if tail.length ≠ 25 then .err else
